@@ -1,7 +1,7 @@
 (* C06 — executable model M of lists as Go slices: a heap of backing arrays, a slice is
    (array, offset, length), its capacity is what is left of the array.  Operations follow
    pkg/cl/{cons,listx,cdr,nthcdr,member,last,butlast,subseq,copy-list,reverse,append,push,pop,nreverse,
-   nconc,sort,delete,mapcar,rplaca,rplacd,car(Place),nth(Place),elt(Place)}.go and pkg/gi/add.go for
+   nconc,sort,delete,delete-if,delete-duplicates,mapcar,rplaca,rplacd,car(Place),nth(Place),elt(Place)}.go and pkg/gi/add.go for
    proper lists of integers, with repo_fixes/C06-1..4 applied.  Go's append writes in
    place when the capacity allows and otherwise allocates an array whose capacity is decided by the
    runtime: that capacity is an input of the operation (observed by the harness), never assumed. *)
@@ -61,6 +61,27 @@ Fixpoint remove_n (p : pred) (n : option nat) (l : list Z) : list Z :=
 Definition remove_if (p : pred) (n : option nat) (fromEnd : bool) (l : list Z) : list Z :=
   if fromEnd then rev (remove_n p n (rev l)) else remove_n p n l.
 
+(* remove-duplicates / delete-duplicates (pkg/cl/delete-duplicates.go dupInfo.inList; RemoveDuplicates embeds
+   DeleteDuplicates): one scan over the positions, an element outside the window [start, end) is always kept, an
+   element inside it is kept when no earlier-scanned element of the window equals it; every scanned element of
+   the window is remembered.  inw i = position i lies in the window. *)
+Fixpoint dscan (inw : nat -> bool) (seen : list Z) (i : nat) (l : list Z) : list Z :=
+  match l with
+  | [] => []
+  | x :: l' =>
+      if inw i
+      then (if existsb (Z.eqb x) seen then dscan inw (x :: seen) (S i) l' else x :: dscan inw (x :: seen) (S i) l')
+      else x :: dscan inw seen (S i) l'
+  end.
+(* :from-end t scans from the front (the first occurrence stays), the default scans from the end (the last
+   occurrence stays) and reverses what it collected; :end beyond the length (or nil) is the length; no range
+   check: a start beyond the end keeps everything *)
+Definition remove_dup (fromEnd : bool) (s : nat) (e : option nat) (l : list Z) : list Z :=
+  let n := length l in
+  let e' := match e with None => n | Some k => Nat.min k n end in
+  let inw := fun i => (s <=? i) && (i <? e') in
+  if fromEnd then dscan inw [] 0 l else rev (dscan (fun j => inw (n - 1 - j)) [] 0 (rev l)).
+
 Inductive op :=
 | OList (xs : list Z) (dst : var)                (* (setq dst (list x...)) *)
 | OCons (x : Z) (src dst : var)
@@ -87,8 +108,10 @@ Inductive op :=
 | OSort (src dst : var)
 | ORemove (x : Z) (src dst : var)                (* remove and delete build a new list by appending *)
 | OMapcar (k : Z) (src dst : var)                (* (setq dst (mapcar (lambda (el) (+ el k)) src)) *)
-| ORemoveIf (p : pred) (cnt : option nat) (fromEnd : bool) (src dst : var).
+| ORemoveIf (p : pred) (cnt : option nat) (fromEnd : bool) (src dst : var)
                                                  (* (setq dst (remove-if / delete-if p src [:count n] [:from-end t])) *)
+| ORemoveDup (fromEnd : bool) (s : nat) (e : option nat) (src dst : var).
+                                                 (* (setq dst (remove-duplicates / delete-duplicates src [:from-end t] [:start s] [:end e])) *)
 
 (* insertion sort: the result of sorting integers by < is unique *)
 Fixpoint insert (x : Z) (l : list Z) : list Z :=
@@ -224,6 +247,11 @@ Definition step (st : state) (o : op) (cap : nat) : state :=
       (* pkg/cl/delete-if.go inList (RemoveIf embeds DeleteIf): the kept elements are appended to a nil list,
          from the end and reversed in that new list with :from-end; nil argument: nil *)
       fresh st dst (remove_if p n fe (vcontents st src)) cap
+  | ORemoveDup fe s e src dst =>
+      (* pkg/cl/delete-duplicates.go inList: in BOTH directions the kept elements are appended to a nil list (a
+         new array; the argument's array is only read), the default direction reverses that new list in place;
+         nil argument: nil *)
+      fresh st dst (remove_dup fe s e (vcontents st src)) cap
   | ONconc a b dst =>
       (* an empty argument is skipped; otherwise append(a[:len:len], b...) (repo_fixes/C06-3) *)
       match vcontents st a, vcontents st b with
